@@ -23,7 +23,7 @@ type Plan = map[string]map[string][]int32
 // RealTopics are the names of the existing topics; GhostTopic is a topic that
 // members may subscribe to / claim but that does not exist (no metadata, so
 // the leader never has a partition count for it).
-var RealTopics = []string{"ta", "tb"}
+var RealTopics = []string{"ta", "tb", "tc", "td"}
 
 const (
 	GhostTopic       = "tz"
@@ -205,14 +205,11 @@ func (c *Case) TopicWanted(t int) bool {
 // iteration order depends on it; the sticky engine numbers partitions in map
 // iteration order).
 func (c *Case) Counts(interest map[string]struct{}) map[string]int32 {
-	out := make(map[string]int32, 2)
-	order := []int{0, 1}
-	if c.TopicOrder == 1 {
-		order = []int{1, 0}
-	}
-	for _, t := range order {
-		if t >= len(c.Parts) {
-			continue
+	out := make(map[string]int32, len(c.Parts))
+	for k := range c.Parts {
+		t := k // order 0: ascending topic index; order 1: descending
+		if c.TopicOrder == 1 {
+			t = len(c.Parts) - 1 - k
 		}
 		if _, ok := interest[RealTopics[t]]; ok {
 			out[RealTopics[t]] = c.Parts[t]
